@@ -257,7 +257,7 @@ func (r *Run) Finish() int {
 				}
 				continue
 			}
-			if unknown < 20 {
+			if unknown < 80 {
 				kept = append(kept, k)
 				unknown++
 			}
@@ -278,7 +278,11 @@ func (r *Run) Finish() int {
 	var recs []vrec
 	exit := 0
 	var lines []string
+	confirmed := 0
 	for _, k := range keys {
+		if confirmed >= 20 {
+			break // enough confirmed violations to report; findings that do not reproduce never use up this allowance
+		}
 		v := t.viols[k]
 		dir := filepath.Join(VerifDir, "replays", r.ID)
 		_ = os.MkdirAll(dir, 0o755)
@@ -323,6 +327,7 @@ func (r *Run) Finish() int {
 				lines = append(lines, fmt.Sprintf("KNOWN-FINDING: property=%s %s [key=%s]", r.ID, kf.What, v.Key))
 			} else {
 				exit = 1
+				confirmed++
 				lines = append(lines, fmt.Sprintf("VIOLATION property=%s replay=%s", r.ID, path))
 				lines = append(lines, fmt.Sprintf("  key=%s\n  %s", v.Key, v.Desc))
 			}
